@@ -664,6 +664,10 @@ class Lattice:
         # now update the contents of `self`
         self._set_Ls(new_Ls)
         self.order = new_order  # property setter
+        if self.position_disorder is not None:
+            # repeat the disorder with the unit cell
+            reps = (factor,) + (1,) * (self.position_disorder.ndim - 1)
+            self.position_disorder = np.tile(self.position_disorder, reps)
         self.test_sanity()
 
     def position(self, lat_idx):
